@@ -167,9 +167,58 @@ def check(ctx, m, cfg):
         raise AnalysisBroken("%s: loop exit on a condition the rule cannot interpret at %s" % (fname, t.where()))
     if nexits == 0:
         raise AnalysisBroken("%s: no loop exit found" % fname)
-    # A2 update
+    # A2 update: either through the output parameters inside the loop, or in loop-carried locals that are stored once after the loop
     st_face = [i for i in f.all_insts() if i.op == "store" and i.block.idx in loop and ir.field_path(m, f, i.ops[1]) == (("a", fk), ())]
     st_sqd = [i for i in f.all_insts() if i.op == "store" and i.block.idx in loop and ir.field_path(m, f, i.ops[1]) == (("a", sk), ())]
+    phi_form = None
+    if not st_face and not st_sqd:
+        outf = [i for i in f.all_insts() if i.op == "store" and i.block.idx not in loop and ir.field_path(m, f, i.ops[1]) == (("a", fk), ()) and i.ops[0][0] == "i" and f.insts[i.ops[0][1]].op == "phi" and f.insts[i.ops[0][1]].block.idx == header]
+        outs = [i for i in f.all_insts() if i.op == "store" and i.block.idx not in loop and ir.field_path(m, f, i.ops[1]) == (("a", sk), ()) and i.ops[0][0] == "i" and f.insts[i.ops[0][1]].op == "phi" and f.insts[i.ops[0][1]].block.idx == header]
+        if len(outf) == 1 and len(outs) == 1:
+            pf, ps = f.insts[outf[0].ops[0][1]], f.insts[outs[0].ops[0][1]]
+
+            def carried(p):
+                init = upd = None
+                for o, inc in zip(p.ops, p.d["inc"]):
+                    if inc in loop:
+                        upd = o
+                    else:
+                        init = o
+                return init, upd
+            (fi, fu), (si, su) = carried(pf), carried(ps)
+            sel_f = f.insts[fu[1]] if fu is not None and fu[0] == "i" and f.insts[fu[1]].op == "select" else None
+            sel_s = f.insts[su[1]] if su is not None and su[0] == "i" and f.insts[su[1]].op == "select" else None
+            if sel_f is not None and sel_s is not None and sel_f.ops[0] == sel_s.ops[0] and sel_f.ops[0][0] == "i":
+                phi_form = (pf, ps, sel_f, sel_s, si, f.insts[sel_f.ops[0][1]])
+    if phi_form is not None:
+        pf, ps, sel_f, sel_s, si, cond = phi_form
+        okv = (_strip(f, sel_f.ops[1]) == iv and sel_f.ops[2] == ["i", pf.id] and _strip(f, sel_s.ops[1]) == ["i", dcall.id] and sel_s.ops[2] == ["i", ps.id])
+        okv_neg = (_strip(f, sel_f.ops[2]) == iv and sel_f.ops[1] == ["i", pf.id] and _strip(f, sel_s.ops[2]) == ["i", dcall.id] and sel_s.ops[1] == ["i", ps.id])
+        if cond.op != "fcmp" or not (okv or okv_neg):
+            raise AnalysisBroken("%s: the loop-carried best / face are not updated by a pair of selects on one comparison" % fname)
+        a, b2 = cond.ops
+        isd = lambda o: _strip(f, o) == ["i", dcall.id]
+        isbest = lambda o: o == ["i", ps.id]
+        if isd(a) and isbest(b2):
+            smaller = cond.pred in ("olt", "ole") if okv else cond.pred in ("uge", "ugt")
+        elif isbest(a) and isd(b2):
+            smaller = cond.pred in ("ogt", "oge") if okv else cond.pred in ("ule", "ult")
+        else:
+            raise AnalysisBroken("%s: update is not guarded by a comparison of the distance with the running best" % fname)
+        if smaller:
+            ctx.ok(RULE, dict(inst, clause="update"), "best and face (loop-carried locals, stored after the loop) are replaced exactly when the new distance is smaller than the running best")
+        else:
+            ctx.violation(RULE, "update:direction", "%s replaces the running best when the new distance is NOT smaller" % fname, cond.where(), inst)
+        v0 = _fconst(si) if si is not None else None
+        if v0 is None:
+            raise AnalysisBroken("%s: the initial best is not a constant" % fname)
+        if v0 >= 4.0:
+            ctx.ok(RULE, dict(inst, clause="initial best", value=v0), "initial best %.3g is at least the largest squared chord 4.0" % v0)
+        elif v0 <= c_safe:
+            ctx.violation(RULE, "init", "%s starts with best = %.9g although squared distances up to %.9g certainly occur: such points keep face 0" % (fname, v0, c_safe), ps.where(), inst)
+        else:
+            ctx.undecided_site(RULE, "%s: initial best %.9g is below 4.0; whether every point is closer than that to some face centre is not decided" % (fname, v0))
+        return nexits + 2
     if len(st_face) != 1 or len(st_sqd) != 1 or st_face[0].block.idx != st_sqd[0].block.idx:
         raise AnalysisBroken("%s: the update of *face / *sqd inside the loop is not one block with one store each" % fname)
     ub = st_face[0].block
